@@ -142,7 +142,7 @@ var shapes = []string{
 }
 
 func (g *corpusGen) add(c proto.Call) {
-	key := c.Fn + "\x00" + c.Expr + "\x00" + strings.Join(c.List, "\x01")
+	key := c.Fn + "|" + strconv.Itoa(len(c.Expr)) + ":" + c.Expr + "|" + listKey(c.List)
 	if c.NilList {
 		key += "\x02nil"
 	}
